@@ -59,6 +59,7 @@ type svcSpec struct {
 	group     int64
 	preHealth bool
 	fails     map[int]failPlan
+	chronic   *failPlan // fails like this in every incarnation that has no plan of its own
 	children  []*svcSpec
 }
 
@@ -88,6 +89,19 @@ type supWorld struct {
 	cancelAt  time.Duration
 	cancelled bool
 	rootCtx   context.Context
+	hot       map[string][]time.Duration // restarts of a failed service that followed its exit without any wait
+	abort     chan struct{}              // closed when a crash loop was seen: no point in simulating it for minutes
+	aborted   bool
+}
+
+// sleepOrAbort waits for d of simulated time, or less if the run was aborted.
+func (w *supWorld) sleepOrAbort(d time.Duration) {
+	tm := time.NewTimer(d)
+	defer tm.Stop()
+	select {
+	case <-tm.C:
+	case <-w.abort:
+	}
 }
 
 func (w *supWorld) now() time.Duration { return time.Since(w.start) }
@@ -159,6 +173,9 @@ func (w *supWorld) runnable(spec *svcSpec, parent func() *incarnation) Runnable 
 			}
 		}
 		plan, hasPlan := spec.fails[inc.n]
+		if !hasPlan && spec.chronic != nil {
+			plan, hasPlan = *spec.chronic, true
+		}
 		fail := func() error {
 			w.mu.Lock()
 			inc.failed, inc.failedAt, inc.failKind = true, w.now(), plan.kind
@@ -256,6 +273,24 @@ func (w *supWorld) checkReenter(inc *incarnation) {
 	prev := prevs[len(prevs)-2]
 	if prev.doneOK && prev.parent == inc.parent && prev.parent != nil {
 		w.violate("done-service-restarted", "service %s signalled done and returned nil but was started again under the same parent instance", inc.spec.dn)
+	}
+	if prev.failed && prev.parent == inc.parent && prev.exited && inc.enterAt-prev.exitAt < 10*time.Millisecond {
+		// "started again after a bounded back-off": a service that keeps failing and is started again
+		// the moment it has returned, over and over, is in a crash loop, not backing off. One or a few
+		// immediate restarts are not judged; more than 20 within a simulated minute are.
+		w.stats.Probe("restart-without-wait")
+		h := append(w.hot[inc.spec.dn], inc.enterAt)
+		for len(h) > 0 && h[0] < inc.enterAt-time.Minute {
+			h = h[1:]
+		}
+		w.hot[inc.spec.dn] = h
+		if len(h) > 20 {
+			w.violate("restart-without-back-off", "service %s failed and was started again at once %d times within a minute (latest at %v): a crash loop instead of a back-off", inc.spec.dn, len(h), w.now())
+			if !w.aborted && w.abort != nil {
+				w.aborted = true
+				close(w.abort)
+			}
+		}
 	}
 	if prev.failed && prev.parent == inc.parent {
 		// every member of its group that was alive at the failure must have been cancelled by now
@@ -478,6 +513,13 @@ func (supHarness) Gen(seed uint64, prop, tier string) *simkit.Program {
 		add("fail", dn, int64(r.Pick(6, 3, 1)), after, kind, 0)
 	}
 	p.Cfg["horizon_ms"] = int64(r.Range(150, 320)) * 1000
+	if r.P(0.1) {
+		// a long run with a service that never gets better: the back-off must stay a back-off however
+		// long the service has been failing (or was healthy before it began to)
+		dn := dns[r.Intn(len(dns))]
+		add("chronic", dn, 0, nextPrime()*int64(r.Range(1, 2000)), int64(r.Pick(5, 3, 2)), int64(r.Pick(1, 3)))
+		p.Cfg["horizon_ms"] = int64(r.Range(930, 1500)) * 1000
+	}
 	if r.P(0.6) {
 		p.Cfg["cancel_ms"] = int64(r.Range(1, int(p.Cfg["horizon_ms"])))
 		if r.P(0.5) {
@@ -489,7 +531,7 @@ func (supHarness) Gen(seed uint64, prop, tier string) *simkit.Program {
 
 func (h supHarness) Exec(p *simkit.Program) *simkit.Result {
 	res := &simkit.Result{Seed: p.Seed, Prop: p.Prop, Steps: len(p.Steps)}
-	w := &supWorld{res: res, stats: simkit.NewStats(), specs: map[string]*svcSpec{}, running: map[string]int{}, incs: map[string][]*incarnation{}}
+	w := &supWorld{res: res, stats: simkit.NewStats(), specs: map[string]*svcSpec{}, running: map[string]int{}, incs: map[string][]*incarnation{}, hot: map[string][]time.Duration{}}
 	root := &svcSpec{dn: "root", name: "root", fails: map[int]failPlan{}}
 	if p.C("rootdone", 0) == 1 {
 		root.kind = 1 // the root only sets its children up, signals done and returns
@@ -532,11 +574,33 @@ func (h supHarness) Exec(p *simkit.Program) *simkit.Result {
 		}
 		s.fails[int(st.A)%8] = failPlan{after, kind}
 	}
+	for _, st := range p.Steps {
+		if st.Op != "chronic" {
+			continue
+		}
+		s := w.specs[st.X]
+		if s == nil || s.kind == 1 {
+			continue
+		}
+		after := time.Duration(st.B) * time.Microsecond
+		if after <= 0 {
+			after = time.Microsecond
+		}
+		kind := int(st.C) % 3
+		if kind < 0 || p.C("propagate", 0) == 1 && kind >= 2 {
+			kind = 0
+		}
+		s.chronic = &failPlan{after, kind}
+		if st.D&1 == 1 {
+			s.preHealth = true
+		}
+	}
 	horizon := time.Duration(p.C("horizon_ms", 200000)) * time.Millisecond
 	cancelAt := time.Duration(p.C("cancel_ms", 0)) * time.Millisecond
 	finished := false
 	body := func(t *testing.T) {
 		w.start = time.Now()
+		w.abort = make(chan struct{})
 		ctx, cancel := context.WithCancel(context.Background())
 		defer cancel()
 		w.rootCtx = ctx
@@ -546,7 +610,7 @@ func (h supHarness) Exec(p *simkit.Program) *simkit.Result {
 		}
 		New(ctx, zap.NewNop(), w.runnable(root, nil), opts...)
 		if cancelAt > 0 && cancelAt <= horizon {
-			time.Sleep(cancelAt)
+			w.sleepOrAbort(cancelAt)
 			synctest.Wait()
 			w.mu.Lock()
 			w.cancelled, w.cancelAt = true, w.now()
@@ -559,7 +623,7 @@ func (h supHarness) Exec(p *simkit.Program) *simkit.Result {
 			// every service gets its exit latency, then the tree must be quiet
 			time.Sleep(w.sumExitLat(root) + 5*time.Second)
 		} else {
-			time.Sleep(horizon)
+			w.sleepOrAbort(horizon)
 		}
 		synctest.Wait()
 		w.mu.Lock()
